@@ -34,6 +34,7 @@ pub fn run(ctx: &mut Ctx) {
             1 => 6.020599913279624,
             2 => -6.020599913279624,
             3 => *rng.pick(&[60.0, -60.0, 20.0, -20.0]),
+            4 => *rng.pick(&[0.001, -0.001, 0.005, -0.008, 1e-6, -1e-9, 0.0086, 0.05]),
             _ => rng.uniform(-60.0, 60.0),
         };
         let labels = env.corpus.random_utterance(rng, 1, if ctx.quick() { 5 } else { 20 });
